@@ -46,9 +46,29 @@ ZERO_TAIL_WRITERS = ("mask_zero_tail", "extract_samps_zero_tail")   # the last b
 ZT_N, ZT_NCH = 3072, 16
 
 
+LIMIT_WRITERS = ("limit_extract", "limit_mask", "limit_invert", "limit_tim")   # blocks of 32 KiB: scenarios run under a file-size limit (full disk / quota)
+
+
 def run_writer(writer, d, gulp, nbits=8, seed=0, preexisting=False):
     """Perform the write inside directory d. Returns list of output paths."""
     from sigpyproc.readers import FilReader
+
+    if writer in LIMIT_WRITERS:
+        rng = np.random.default_rng([seed, 79])
+        Xl = rng.integers(1, 200, size=(8192, 16)).astype(np.uint8)
+        pl = os.path.join(d, "in.fil")
+        sigfile.write_fil(pl, Xl, 8, fch1=1500.0, foff=-10.0, tsamp=1e-3)
+        fill = FilReader(pl)
+        outl = os.path.join(d, "out.fil")
+        kwl = {"gulp": 2048, "quiet": True, "description": "v"}
+        if writer == "limit_extract":
+            return [fill.extract_samps(0, 8192, outl, **kwl)]
+        if writer == "limit_mask":
+            ml = np.zeros(16, dtype=bool); ml[[2, 9]] = True
+            return [fill.apply_channel_mask(ml, 5, outl, **kwl)]
+        if writer == "limit_invert":
+            return [fill.invert_freq(outl, **kwl)]
+        return [fill.collapse(**kwl).to_tim(os.path.join(d, "out.tim"))]
 
     if writer in ZERO_TAIL_WRITERS:
         rng = np.random.default_rng([seed, 78])
@@ -155,6 +175,22 @@ def child_main(argv):
     if k >= 0:
         wrap("write")
         wrap("cwrite")
+    fs = [f for f in flags if f.startswith("fsize=")]
+    if fs:
+        # a full disk / quota: once the input exists, no file of this process may grow beyond the limit (writes are cut short or refused)
+        import resource
+        import signal
+
+        lim = int(fs[0].split("=")[1])
+        signal.signal(signal.SIGXFSZ, signal.SIG_IGN)
+        orig_wf = sigfile.write_fil
+
+        def wf(*a, **kw):
+            r = orig_wf(*a, **kw)
+            resource.setrlimit(resource.RLIMIT_FSIZE, (lim, lim))
+            return r
+
+        sigfile.write_fil = wf
     try:
         outs = run_writer(writer, d, gulp, preexisting="pre" in flags)
     except KeyboardInterrupt:
